@@ -25,7 +25,8 @@ import (
 
 // The real recorder with the REAL uploader (backendpb.BillStat) over a
 // scripted gRPC stream: a batch is delivered only when the stream is closed
-// successfully; every Send and the close may fail.
+// successfully; every Send and the close may fail, and the server may end the
+// stream early (Send returns io.EOF, the close reports the status).
 
 type c16uBackend struct {
 	delivered map[string]int
@@ -54,8 +55,14 @@ func (c *c16uClient) SaveDevicesBillingStat(_ context.Context, _ ...grpc.CallOpt
 
 func (s *c16uStream) Send(m *DeviceBillingStat) error {
 	xsched.Yield("upload: record sent")
-	if xsched.Choose(2, "send fails") == 1 {
+	// A send may fail with an error, or with io.EOF: the server has already
+	// ended the stream (this record was not received), and the status of the
+	// call is what CloseAndRecv reports - possibly OK.
+	switch xsched.Choose(3, "send fails / stream already ended by the server") {
+	case 1:
 		return errors.New("stream broken")
+	case 2:
+		return io.EOF
 	}
 	s.batch[m.DeviceId] = [2]int{int(m.Queries), int(m.Asn)}
 
